@@ -103,7 +103,7 @@ def one(ctx, rng, xr, dask, ops, names):
         op = ops[name]
         if nf < op.min_nf:
             continue
-        if (op.exact or op.peak or name == "dp") and ties(x, op):
+        if (op.exact or op.peak or name in ("dp", "dm")) and ties(x, op):
             rec.skip(name, "discrete decision tied within rounding")
             continue
         try:
